@@ -72,10 +72,12 @@ def replay_native(short, vals):
 def run(prop, cfg, tier, seed, known):
     sync_lock()
     meta = {}
-    try:
-        meta = json.load(open(os.path.join(KDIR, "harnesses.json")))
-    except OSError:
-        pass
+    import glob
+    for mp in glob.glob(os.path.join(KDIR, "meta", "*.json")):
+        try:
+            meta.update(json.load(open(mp)))
+        except Exception as e:
+            pass
     prefixes = [cfg["prefix"]] + ([cfg["thorough_prefix"]] if tier == "thorough" and cfg.get("thorough_prefix") else [])
     out = {"obligations": 0, "discharged": 0, "violations": [], "undecided": [], "known_hits": [], "functions": [],
            "samples": [], "cmds": [], "trusted": [], "solver_s": 0.0}
